@@ -172,6 +172,13 @@ def roundtrip_real(env, ast, src_path=None, metadata=None):
   out["sa2"] = sa2
   out["sa2_tokens"] = c12_gen.value_tokens(sa2)
   out["ast_eq"] = bool(env.pytd_utils.ASTeq(sa2.ast, expected)) and sa2.ast.name == expected.name
+  # the decoded declarations are in canonical order: every field CanonicalOrderingVisitor sorts is non-decreasing
+  # under the real Node.__lt__ of the DECODED nodes (pointers cleared), and the visitor leaves the AST as it is
+  out["decoded_order_fail"] = c12_prep.order_failure(sa2.ast)
+  if not out["decoded_order_fail"]:
+    again = sa2.ast.Visit(env.pytd_visitors.CanonicalOrderingVisitor())
+    if c12_gen.value_tokens(again, drop_cache=True) != c12_gen.value_tokens(sa2.ast, drop_cache=True):
+      out["decoded_order_fail"] = "decoded AST is not a fixed point of CanonicalOrderingVisitor"
   out["rest_eq"] = (sa2.dependencies == sa.dependencies and sa2.late_dependencies == sa.late_dependencies
                     and sa2.src_path == sa.src_path and sa2.metadata == sa.metadata
                     and sa2.class_type_nodes == sa.class_type_nodes)
@@ -199,6 +206,8 @@ def oracle_failure(rt):
     return rt["prep_fail"]
   if rt["cache_in_bytes"]:
     return "lookup cache (_name2item) written into the serialised bytes"
+  if rt.get("decoded_order_fail"):
+    return "decoded order: " + rt["decoded_order_fail"]
   if not rt["ast_eq"]:
     return "decoded AST != canonically ordered original (ASTeq)"
   if not rt["rest_eq"]:
@@ -584,6 +593,79 @@ def bundle_cases(env, r, res):
   return len(items), fails
 
 
+# ---------------------------------------------------------------------------------------------
+# ASTs in MIXED resolution state, as pyi/parse_pickle.py and io.write_pickle make them
+# (serialize_ast.SourceToExportableAst: local classes and builtins get their .cls pointer, typing.* stays an
+# unresolved ClassType).  The sort key of CanonicalOrderingVisitor prints ClassType(x) for a resolved and
+# ClassType<unresolved>(x) for an unresolved reference, so the order of two same-base generics inside a union
+# depends on WHEN the pointers are cleared - visible only if the module name sorts after "typing".
+MIXED_FIXED = """
+from typing import Dict, Hashable, List, Sized, Tuple, Union
+
+class Job: ...
+class Pool:
+  queue: Union[List[Job], List[Hashable]]
+  def submit(self, x: Union[Dict[str, Job], Dict[str, Sized]]) -> None: ...
+
+def run(x: Union[Tuple[Job, int], Tuple[Hashable]]) -> None: ...
+"""
+
+MIXED_TEMPLATE = """
+from typing import Any, Callable, Dict, FrozenSet, Hashable, Iterable, List, Optional, Sequence, Set, Sized, Tuple, Union
+
+class Job: ...
+class Zed(Job):
+  nested: %(u0)s
+class Pool:
+  queue: %(u1)s
+  def submit(self, x: %(u2)s) -> %(u3)s: ...
+
+def run(x: %(u4)s, *args: %(u5)s) -> None: ...
+v: %(u6)s
+"""
+
+MIXED_WRAPPERS = ["List[%s]", "Dict[str, %s]", "Tuple[%s, int]", "Tuple[%s]", "Set[%s]", "FrozenSet[%s]",
+                  "Callable[[%s], int]", "Callable[..., %s]", "List[List[%s]]", "Dict[str, List[%s]]",
+                  "Tuple[%s, ...]", "Iterable[%s]"]
+MIXED_LOCAL = ["Job", "Zed", "Pool"]                                   # resolved: .cls set
+MIXED_TYPING = ["Hashable", "Sized", "Sequence[str]", "Iterable[int]"]  # typing.*: stays unresolved
+MIXED_BUILTIN = ["int", "str", "bytes"]                                 # resolved against the builtins
+MIXED_MODULES = ["shapes", "utils", "a.b", "zz.mod", "typing_ext", "t", "u", "typinh", "typinf.x"]
+
+
+def mixed_union(r, depth=0):
+  """Union of same-base generics whose parameters are in different resolution states (also nested)."""
+  w = r.choice(MIXED_WRAPPERS)
+  members = [r.choice(MIXED_LOCAL), r.choice(MIXED_TYPING)]
+  if r.random() < 0.5:
+    members.append(r.choice(MIXED_BUILTIN + MIXED_LOCAL + MIXED_TYPING))
+  if depth < 2 and r.random() < 0.35:
+    members.append(mixed_union(r, depth + 1))
+  members = list(dict.fromkeys(members))
+  r.shuffle(members)
+  u = "Union[%s]" % ", ".join(w % m for m in members)
+  if r.random() < 0.25:
+    u = r.choice(["List[%s]", "Optional[%s]", "Dict[str, %s]"]) % u
+  return u
+
+
+def build_exportable(env, text, module):
+  loader = getattr(env, "_export_loader", None)
+  if loader is None:
+    loader = env._export_loader = env.load_pytd.create_loader(env.options)  # pylint: disable=protected-access
+  return env.serialize_ast.SourceToExportableAst(module, text, loader)
+
+
+def mixed_cases(env, r, n_random):
+  out = []
+  for mod in ("shapes", "utils"):
+    out.append(("mixed:fixed:" + mod, MIXED_FIXED, mod))
+  for i in range(n_random):
+    text = MIXED_TEMPLATE % {"u%d" % k: mixed_union(r) for k in range(7)}
+    out.append(("mixed:%d" % i, text, MIXED_MODULES[i % len(MIXED_MODULES)] if i < 2 * len(MIXED_MODULES) else r.choice(MIXED_MODULES)))
+  return out
+
+
 def parse_pyi(env, text, name):
   return env.parser.parse_string(text, name=name, filename=name + ".pyi", options=env.pyi_options)
 
@@ -808,6 +890,15 @@ def run(res):
   for mod in ("builtins", "typing"):
     text = open(os.path.join(stub_dir, mod + ".pytd")).read()
     cases.append(("stub-raw:" + mod, parse_pyi(env, text, mod), {"kind": "stub-raw", "module": mod}, True))
+  rm = common.rng(res.seed, "c12-mixed")
+  n_mixed = 0
+  for label, text, mod in mixed_cases(env, rm, 120 if thorough else 14):
+    try:
+      cases.append((label, build_exportable(env, text, mod), {"kind": "exportable", "text": text, "module": mod}, True))
+      n_mixed += 1
+    except Exception as e:  # pylint: disable=broad-except
+      res.obligation("generator:mixed-resolution-stub-builds", False, "%s (%s): %s: %s" % (label, mod, type(e).__name__, e))
+  stats["mixed_resolution_asts"] = n_mixed
   em, loader = emitted_asts(env, len(PROGRAMS) if thorough else 3, res)
   for name, ast, rp in em:
     cases.append((name, ast, rp, True))
@@ -1001,13 +1092,14 @@ def shrink_case(env, ast, replay_obj, kind, budget_s=15.0):
         f2 = run(drop_from(u.functions[fi], ["signatures", "decorators"]), wrapf)
         u = wrapf(f2)
       return {"kind": "expr", "expr": c12_gen.to_expr(u), "shrunk": True}
-    if replay_obj.get("kind") == "pyi":
+    if replay_obj.get("kind") in ("pyi", "exportable"):
+      build = parse_pyi if replay_obj["kind"] == "pyi" else build_exportable
       lines = replay_obj["text"].split("\n")
       def bad_text(ls):
         if time.time() > deadline:
           return False
         try:
-          return failure_kind(env, parse_pyi(env, "\n".join(ls), replay_obj["module"])) == kind
+          return failure_kind(env, build(env, "\n".join(ls), replay_obj["module"])) == kind
         except Exception:  # pylint: disable=broad-except
           return False
       if not bad_text(lines):
@@ -1018,7 +1110,7 @@ def shrink_case(env, ast, replay_obj, kind, budget_s=15.0):
         if bad_text(cand):
           lines = cand
         i -= 1
-      return {"kind": "pyi", "text": "\n".join(lines), "module": replay_obj["module"], "shrunk": True}
+      return {"kind": replay_obj["kind"], "text": "\n".join(lines), "module": replay_obj["module"], "shrunk": True}
   except Exception:  # pylint: disable=broad-except
     pass
   return replay_obj
@@ -1535,9 +1627,13 @@ def replay(res, path):
     print("b =", b)
     print("a == b:", a == b, " hash(a) == hash(b):", hash(a) == hash(b), " len({a, b}):", len({a, b}))
     return 1 if (a == b and hash(a) != hash(b)) else 0
-  if kind in ("pyi", "expr", "program", "stub-raw", "stub-loaded"):
+  if kind in ("pyi", "expr", "program", "stub-raw", "stub-loaded", "exportable"):
     if kind == "pyi":
       ast = parse_pyi(env, rp["text"], rp["module"])
+    elif kind == "exportable":
+      print("module %r through serialize_ast.SourceToExportableAst:" % rp["module"])
+      print(rp["text"])
+      ast = build_exportable(env, rp["text"], rp["module"])
     elif kind == "expr":
       ast = eval(rp["expr"], env.ns())  # pylint: disable=eval-used
     elif kind == "stub-raw":
